@@ -158,9 +158,18 @@ def k_batch_norm_rank(c):
     return c.req.startswith('batch_norm ') and len(ints(argstr(c.req)['xs'])) != 4
 
 
+def k_bilinear_lead(c):
+    """bilinear on inputs of rank >= 4 whose leading axes 1 .. rank-3 are not all of extent 1"""
+    if not c.req.startswith('bilinear '):
+        return False
+    sh = ints(argstr(c.req)['as'])
+    return len(sh) >= 4 and any(e != 1 for e in sh[1:len(sh) - 2])
+
+
 KNOWN_PREDICATES = {
     'conv_groups_interleaved': k_conv_groups,
     'batch_norm_rank_not4': k_batch_norm_rank,
+    'bilinear_lead_axes': k_bilinear_lead,
 }
 
 
@@ -460,14 +469,24 @@ def gen_linear(tier, rng):
                 out = ref.linear(np.array(x, dtype=object).reshape(xs), np.array(w, dtype=object).reshape(O, I), bias)
                 yield Case('linear dt=%s xs=%s x=%s ws=%d,%d w=%s b=%s%s' % (dt, fmt(xs), fmt(x), O, I, fmt(w), 'None' if bias is None else fmt(bias), '' if bias is None else ' bs=%d' % O),
                            H_LIN, oracle=fres(out), tags=['linear', 'rank=%d' % rank, 'bias' if bias else 'nobias', 'dt=' + dt])
-            # bilinear
-            as_, bs_ = lead + [I], lead + [J]
-            a = rints(rng, prod(as_), -3, 3); b = rints(rng, prod(bs_), -3, 3); w = rints(rng, O * I * J, -3, 3)
-            for bias in (None, rints(rng, O, -9, 9)):
-                out = ref.bilinear(np.array(a, dtype=object).reshape(as_), np.array(b, dtype=object).reshape(bs_), np.array(w, dtype=object).reshape(O, I, J), bias)
-                yield Case('bilinear dt=%s as=%s a=%s bs=%s b=%s ws=%d,%d,%d w=%s c=%s%s' % (dt, fmt(as_), fmt(a), fmt(bs_), fmt(b), O, I, J, fmt(w),
-                                                                                         'None' if bias is None else fmt(bias), '' if bias is None else ' cs=%d' % O),
-                           H_LIN, oracle=fres(out), model=False, tags=['bilinear', 'rank=%d' % rank, 'bias' if bias else 'nobias', 'dt=' + dt])
+            # bilinear (rank 4: a second lead, with and without a middle extent of 1 — the class of bilinear.lead-axes)
+            leads_b = [lead]
+            if rank == 3 and rep % 2 == 0:
+                leads_b.append([lead[0], 1, lead[1]])
+                leads_b.append([lead[0], rng.randint(2, 3), lead[1]])
+            for lead_b in leads_b:
+                as_, bs_ = lead_b + [I], lead_b + [J]
+                a = rints(rng, prod(as_), -3, 3); b = rints(rng, prod(bs_), -3, 3); w = rints(rng, O * I * J, -3, 3)
+                for bias in (None, rints(rng, O, -9, 9)):
+                    out = ref.bilinear(np.array(a, dtype=object).reshape(as_), np.array(b, dtype=object).reshape(bs_), np.array(w, dtype=object).reshape(O, I, J), bias)
+                    c = Case('bilinear dt=%s as=%s a=%s bs=%s b=%s ws=%d,%d,%d w=%s c=%s%s' % (dt, fmt(as_), fmt(a), fmt(bs_), fmt(b), O, I, J, fmt(w),
+                                                                                           'None' if bias is None else fmt(bias), '' if bias is None else ' cs=%d' % O),
+                             H_LIN, oracle=fres(out), tags=['bilinear', 'rank=%d' % (len(lead_b) + 1), 'bias' if bias else 'nobias', 'dt=' + dt])
+                    if k_bilinear_lead(c):
+                        # known defect class: the oracle is the judge; the model mirrors the unrepaired code and would
+                        # disagree with a repaired tree, so it is not consulted here
+                        c.dom = False; c.model = False
+                    yield c
             # pairwise_distance / cosine_similarity
             D = rng.randint(1, 5)
             sa = lead + [D]
@@ -531,6 +550,9 @@ def oracle_for(req):
             return 'ok ' + fmt(ref.pool_windows(ints(a['shape']), ints(a['kernel']), ints(a['stride']), a['ceil'] == '1')[0])
         if op in ('max_pool2d', 'avg_pool2d'):
             return fres(ref.pool2d(_arr(a, 'x'), ints(a['kernel']), ints(a['stride']), a['ceil'] == '1', op[:3]))
+        if op == 'bilinear':
+            cb = None if a['c'] == 'None' else [int(t) for t in a['c'].split(',')]
+            return fres(ref.bilinear(_arr(a, 'a', int), _arr(a, 'b', int), _arr(a, 'w', int), cb))
         if op == 'batch_norm':
             f = lambda k: [float(t) for t in a[k].split(',')]
             return fres(ref.batch_norm(_arr(a, 'x'), f('m'), f('v'), f('w'), f('b')))
@@ -543,7 +565,7 @@ def gen_witnesses(tier, rng):
     """the witness of every known finding is re-executed on every run"""
     import json
     path = os.path.join(os.path.dirname(os.path.dirname(os.path.dirname(os.path.abspath(__file__)))), 'known', 'C17.json')
-    hmap = {'conv1d': H_C1, 'pool_shape': H_POOL, 'max_pool2d': H_POOL, 'avg_pool2d': H_POOL, 'batch_norm': H_NORM}
+    hmap = {'conv1d': H_C1, 'pool_shape': H_POOL, 'max_pool2d': H_POOL, 'avg_pool2d': H_POOL, 'batch_norm': H_NORM, 'bilinear': H_LIN}
     for e in json.load(open(path)):
         req = e['witness']
         op = req.split(' ')[0]
